@@ -63,6 +63,12 @@ func validateJSONPatches(patches []byte) error {
 			return fmt.Errorf("%s: invalid path", patch.JSONPatch)
 		}
 
+		// RFC 6901: a JSON pointer is empty or starts with '/' (the JSON patch library would read
+		// "x/service" as "/service")
+		if path != "" && !strings.HasPrefix(path, "/") {
+			return fmt.Errorf("%s: invalid path", patch.JSONPatch)
+		}
+
 		if strings.HasPrefix(path, "/"+document.ServiceProperty) {
 			return fmt.Errorf("%s: cannot modify services", patch.JSONPatch)
 		}
@@ -75,6 +81,10 @@ func validateJSONPatches(patches []byte) error {
 		if fromMsg, ok := p["from"]; ok && fromMsg != nil {
 			var from string
 			if err := json.Unmarshal(*fromMsg, &from); err != nil {
+				return fmt.Errorf("%s: invalid from", patch.JSONPatch)
+			}
+
+			if from != "" && !strings.HasPrefix(from, "/") {
 				return fmt.Errorf("%s: invalid from", patch.JSONPatch)
 			}
 
